@@ -118,6 +118,80 @@ func rolesOf(p *Program) map[string][]string {
 	return roles
 }
 
+// definesVisibleGlobalAgain reports whether some function or block defines (by :=, var, parameter, loop or
+// range variable) a name that a global variable defined textually before it already has. The language has no
+// shadowing: such a definition is rejected, and in a multi-name := it re-uses the global, where Go's meaning
+// (which the reference follows) would be a new local. Renamings must not create that situation.
+func definesVisibleGlobalAgain(p *Program) bool {
+	for _, f := range p.Files {
+		globals := map[string]bool{}
+		var inner func(b []Stmt) bool
+		inner = func(b []Stmt) bool {
+			for _, s := range b {
+				switch x := s.(type) {
+				case VarDecl:
+					for _, n := range x.Names {
+						if globals[n] {
+							return true
+						}
+					}
+				case FuncDecl:
+					for _, pa := range x.Params {
+						if globals[pa.Name] {
+							return true
+						}
+					}
+					if inner(x.Body) {
+						return true
+					}
+				case If:
+					for _, br := range x.Branches {
+						if inner(br.Body) {
+							return true
+						}
+					}
+					if inner(x.Else) {
+						return true
+					}
+				case Switch:
+					for _, c := range x.Cases {
+						if inner(c.Body) {
+							return true
+						}
+					}
+				case For:
+					if d, ok := x.Init.(VarDecl); ok {
+						for _, n := range d.Names {
+							if globals[n] {
+								return true
+							}
+						}
+					}
+					if globals[x.RangeIdx] || globals[x.RangeVal] {
+						return true
+					}
+					if inner(x.Body) {
+						return true
+					}
+				}
+			}
+			return false
+		}
+		for _, s := range f.Stmts {
+			if d, ok := s.(VarDecl); ok {
+				for _, n := range d.Names {
+					globals[n] = true
+				}
+				continue
+			}
+			if inner([]Stmt{s}) {
+				return true
+			}
+		}
+	}
+	return false
+}
+
 func renameProgram(p *Program, from, to string) *Program {
 	return (&Rewriter{Name: func(kind, n string) string {
 		if n == from {
@@ -217,7 +291,7 @@ func c10Programs(c *Check) []*Program {
 		}},
 	}}
 	progs := []*Program{p1, p2, p3, p4}
-	n := c.Pick(2, 30)
+	n := c.Pick(2, 16)
 	for i := 0; i < n; i++ {
 		cfg := genConfigs[[]string{"c02", "c03"}[i%2]]
 		cfg.SmallNames = false
@@ -450,6 +524,9 @@ func checkC10(c *Check) {
 			}
 			sort.Strings(ownNames)
 			for _, from := range cands {
+				if bi >= 8 {
+					break // own-name renamings on the hand-written programs and the first generated ones
+				}
 				for _, to := range ownNames {
 					if to != from {
 						classCount["own-name"]++
@@ -518,6 +595,10 @@ func checkC10(c *Check) {
 			spentMu.Unlock()
 		}()
 		rp := renameProgram(b.p, j.from, j.to)
+		if j.class == "own-name" && definesVisibleGlobalAgain(rp) && !definesVisibleGlobalAgain(b.p) {
+			c.Count("own_name_renamings_not_meaning_preserving_skipped", 1)
+			return
+		}
 		if j.class == "own-name" {
 			// a renaming onto another identifier can make the program ill typed; the reference interpreter assumes
 			// well-typed programs, so any fault inside it means "not a meaning-preserving renaming"
